@@ -158,10 +158,18 @@ def shape_of(program: Program, c: ClassInfo):
             shapes.add("prefix")
         else:
             shapes.add("atom")
+    shape_of.last_shapes = shapes
     for s in ("infix", "prefix", "postfix"):
         if s in shapes:
             return s, sk
     return "atom", sk
+
+
+# classes with a render path that prints a child verbatim (no brackets, no text of their own), reviewed one by one
+TRANSPARENT_OK = {
+    "ValueWrapper": "wraps constants; a wrapped node only arises when a caller constructs ValueWrapper(<node>) by hand (wrap_constant passes nodes through unwrapped)",
+    "Array": "the verbatim path prints the single placeholder of a parameterised array",
+}
 
 
 def paths(v, limit: int = 64, opaque_leaf: bool = False, with_conds: bool = False):
@@ -292,6 +300,13 @@ def check(program: Program, run: Run) -> None:
         elif shp in ("atom", "passthrough", "empty"):
             class_kind[c.qualname] = "atom"
             known = True
+            if "passthrough" in getattr(shape_of, "last_shapes", ()):
+                owner = render_owner(c, sk)
+                tok = owner in TRANSPARENT_OK or any(k.qualname in TRANSPARENT_OK for k in c.mro)
+                run.ob("C06 a class that parents treat as an atom never prints its operand bare", c.qualname, tok, detail=f"verbatim child path in {owner}", where=f.loc())
+                if not tok:
+                    run.finding(f"C06/transparent-wrapper:{owner}", f"{owner} has a render path that prints its operand without any brackets or text of its own, while every parent renderer treats a {c.qualname} as an atom "
+                                "(no `operator` attribute, not a criterion class): an operator inside it regroups with the surrounding expression", where=f.loc(), rule="classification")
         elif shp in ("postfix", "infix") and render_owner(c, sk) in KNOWN_KEYWORD_CRITERIA:
             class_kind[c.qualname] = f"keyword-criterion({shp}, level comparison)"
             known = True
